@@ -934,13 +934,18 @@ func (fr *Frame) mergeReturns(sub *Frame, rt *types.Tuple) []Term {
 	}
 	if len(sub.rets) == 1 {
 		fr.st = sub.rets[0].st
+		// paths of the callee that end in a (declared) panic do not continue here
+		fr.reach = sub.rets[0].reach
 		return sub.rets[0].vals
 	}
 	var ins []inEdge
+	var rs []Term
 	for _, r := range sub.rets {
 		ins = append(ins, inEdge{guard: r.reach, st: r.st})
+		rs = append(rs, r.reach)
 	}
 	fr.st = fr.mergeStates(ins, nil)
+	fr.reach = or(rs...)
 	var res []Term
 	for i := 0; i < rt.Len(); i++ {
 		same := true
@@ -1272,6 +1277,10 @@ func (fr *Frame) curEnv() *Env {
 			return fr.lookupLocalAt(name, blk, nil, fr.st)
 		}
 		return Binding{}, false
+	}
+	if env.old != nil {
+		// SSA locals are values: they mean the same inside old(...)
+		env.old.local = env.local
 	}
 	return env
 }
